@@ -91,4 +91,81 @@ theorem phrase_agreesX (cfg : Cfg) (hcfg : cfg.engine = false) (gr : Grammar) (h
     exact .app (.cons (st.eq _ _ (World.initX_eq k b.nhid q hqk)) (.cons (st.eq _ _ (World.initX_eq k b.nhid l hlk))
       (.cons (st.eq _ _ (World.initX_eq k b.nhid r hrk)) .nil)))
 
+/-! ### what the reader delivers is well-formed -/
+
+theorem headOf_bound {h : Term} {f : String} {as : List Term} (e : headOf h = .ok (f, as)) (n : Nat)
+    (hn : boundT h ≤ n) : as.all (fun t => decide (boundT t ≤ n)) = true := by
+  cases h with
+  | var v => simp [headOf] at e
+  | atom a => simp only [headOf, Except.ok.injEq, Prod.mk.injEq] at e; rw [← e.2]; rfl
+  | app g bs =>
+    simp only [headOf, Except.ok.injEq, Prod.mk.injEq] at e
+    rw [← e.2]
+    refine all_bound_occ _ n (fun v hv => ?_)
+    have : occT v (.app g bs) = true := by simpa [occT, occL_toList] using hv
+    have := occ_bound _ v this
+    omega
+  | int _ => simp [headOf] at e
+  | flt _ => simp [headOf] at e
+  | str _ => simp [headOf] at e
+
+theorem terminalsOf_bound {t : Term} {ts : List Term} (e : terminalsOf t = .ok ts) (n : Nat)
+    (hn : boundT t ≤ n) : ts.all (fun t => decide (boundT t ≤ n)) = true := by
+  refine all_bound_occ _ n (fun v hv => ?_)
+  have := occ_bound _ v (terminalsOf_occ v t ts e hv)
+  omega
+
+/-- a rule read by `Rule.ofTerm` is well-formed and its body is in the non-strict fragment -/
+theorem ofTerm_rule_wf (rt : Term) (r : Rule) (h : Rule.ofTerm rt = .ok r) :
+    r.wf = true ∧ r.body.ok false = true := by
+  unfold Rule.ofTerm at h
+  split at h
+  · rename_i hd bd
+    simp only at h
+    split at h
+    · rename_i nt pb
+      cases hh : headOf nt with
+      | error e => simp [hh] at h
+      | ok p =>
+        obtain ⟨f, as⟩ := p
+        simp only [hh] at h
+        cases hb : Body.ofTerm bd with
+        | error e => simp [hb] at h
+        | ok b' =>
+          simp only [hb] at h
+          cases hp : terminalsOf pb with
+          | error e => simp [hp] at h
+          | ok ts =>
+            simp only [hp, Except.ok.injEq] at h
+            subst h
+            have hbnd : boundT (Term.app "," (.cons nt (.cons pb .nil))) = max (boundT nt) (max (boundT pb) 0) := rfl
+            refine ⟨?_, ofTerm_ok bd b' hb⟩
+            simp only [Rule.wf, Bool.and_eq_true]
+            refine ⟨⟨headOf_bound hh _ (by rw [hbnd]; omega), terminalsOf_bound hp _ (by rw [hbnd]; omega)⟩, ?_⟩
+            exact varsBelow_mono b' (Nat.le_max_right _ _) (ofTerm_varsBelow bd b' hb)
+    · rename_i hne
+      cases hh : headOf hd with
+      | error e => simp [hh] at h
+      | ok p =>
+        obtain ⟨f, as⟩ := p
+        simp only [hh] at h
+        cases hb : Body.ofTerm bd with
+        | error e => simp [hb] at h
+        | ok b' =>
+          simp only [hb, Except.ok.injEq] at h
+          subst h
+          refine ⟨?_, ofTerm_ok bd b' hb⟩
+          simp only [Rule.wf, Bool.and_eq_true]
+          exact ⟨⟨headOf_bound hh _ (Nat.le_max_left _ _), trivial⟩,
+            varsBelow_mono b' (Nat.le_max_right _ _) (ofTerm_varsBelow bd b' hb)⟩
+  · simp at h
+
+/-- stage E:   a --> [x].    b --> [y].    t(B) --> call(a), phrase(b), B.
+    (call//1, phrase//1 and a variable body) -/
+def exampleGrammarE : Grammar :=
+  [ { name := "a", args := [], pushback := none, nv := 0, body := .terminals [.atom "x"] },
+    { name := "b", args := [], pushback := none, nv := 0, body := .terminals [.atom "y"] },
+    { name := "t", args := [.var 0], pushback := none, nv := 1,
+      body := .seq (.call1 (.atom "a")) (.seq (.phrase (.atom "b")) (.var 0)) } ]
+
 end PrologVerif.Grammar
